@@ -258,6 +258,14 @@ def run(ctx):
         pre, calls = rng.choice(presafe), rng.choice(short)
         ser = sers[i % 4]
         cases.append({"calls": calls, "pre": pre, "oneway": rng.random() < 0.3, "ser": ser, "drain": i % 2 == 0})
+    # long batches: a failing member early, late, or nowhere in more than a thousand calls
+    # (quick: the early failure only - the model stops there too, the other shapes take TLC minutes)
+    for li, (n, failat) in enumerate(((1100, 7), (2300, 3), (1100, 1050), (1100, 0), (2300, 1200))[:ctx.pick(2, 5)]):
+        calls = [{"m": "add", "k": 1 + j % 3} for j in range(n)]
+        if failat:
+            calls[failat] = {"m": "fail", "k": 0}
+        for oneway in (False, True):
+            cases.append({"calls": calls, "pre": [], "oneway": oneway, "ser": sers[(li + oneway) % 4], "drain": True})
     traces = run_cases(cases, "multiplex")
     metas = [dict(c, server="multiplex") for c in cases]
     if not ctx.quick:
